@@ -71,6 +71,15 @@ func runC20(c *vkit.Ctx, lab *Lab, r *rand.Rand, i int) {
 			for k := 0; k < 1+r.IntN(2); k++ {
 				api := []string{"snap", "json", "yaml", "ssnap", "sjson"}[r.IntN(5)]
 				cl := Call{API: api, Val: lab.value(r, api, name+"-new", 100+k, false)}
+				if (api == "json" || api == "sjson" || api == "yaml") && r.IntN(4) == 0 {
+					// a Go value that cannot be encoded: the call fails before anything is compared
+					// and is tallied as failed like any other failure
+					cl.Form = []string{"marshal-error", "marshal-error", "unsupported-value"}[r.IntN(3)]
+					if api == "yaml" {
+						cl.Form = "marshal-error"
+					}
+					lc.Classes["go-value-that-cannot-be-encoded"] = true
+				}
 				if r.IntN(5) == 0 {
 					// a directory that cannot be created (its parent is a regular file): the write fails,
 					// the call must still end in exactly one outcome (one Error) and be tallied as failed
